@@ -237,6 +237,10 @@ def lock_order_stage(run, work, nrandom):
                 seen[(hc, ac)] = seen.get((hc, ac), 0) + int(t[6])
                 if hc not in ranks or ac not in ranks:
                     run.broken.append("lock-order tracer: unclassified lock object in `%s` (%s)" % (ctx, f))
+                elif ac == "thr":
+                    why = ("lock order: `%s` joins a library thread (pthread_join) while holding the %s lock (%s); the thread takes that "
+                           "lock itself (checkpoint / savepoint), so the join can wait for ever - in the rank order of the deadlock-freedom "
+                           "theorem a thread's termination ranks below every lock" % (ctx, hc, "write" if hm else "read"))
                 elif not ranks[hc] < ranks[ac]:
                     why = ("lock order: `%s` acquires the %s lock (%s) while holding the %s lock (%s) - against the rank order %s "
                            "under which deadlock freedom is proved" % (ctx, ac, "write" if am else "read", hc, "write" if hm else "read",
